@@ -7,7 +7,11 @@ if ! git -C /repo diff --quiet; then echo "/repo has uncommitted changes"; exit 
 git -C /repo apply /verif/seeded/$name/patch.diff || exit 3
 trap 'git -C /repo checkout -- .' EXIT
 before=$(ls replays | sort)
+# evidence written while a seeded change is applied describes the mutant, not the tree: keep the real one
+cp evidence/$prop.json /tmp/evidence-$prop.keep 2>/dev/null
 ./check $prop --tier ${TIER:-quick}; rc=$?
+mkdir -p /tmp/seed-evidence; cp evidence/$prop.json /tmp/seed-evidence/$name.json 2>/dev/null
+if [ -f /tmp/evidence-$prop.keep ]; then mv /tmp/evidence-$prop.keep evidence/$prop.json; fi
 # remove replay files this run created (they belong to the mutant, not to the tree)
 for f in $(ls replays | sort); do case "$before" in *"$f"*) ;; *) mkdir -p /tmp/seed-replays/$name; mv replays/$f /tmp/seed-replays/$name/ ;; esac; done
 echo "seed=$name property=$prop rc=$rc"
